@@ -170,7 +170,7 @@ func Run(c *hx.Ctx) {
 	for _, p := range []struct {
 		name string
 		run  func(*hx.Ctx)
-	}{{"bolt", runBolt}, {"boltlocal", runBoltLocal}, {"dubbo", runDubbo}, {"thrift", runThrift}, {"tars", runTars}, {"uri", runURI}, {"http1", runHTTP1}, {"http2", runHTTP2}, {"relay", runRelay}, {"reenc", runReenc}, {"http1m", runHTTP1Method}, {"http1f", runHTTP1Framing}, {"relayup", runRelayFirst}, {"reencs", runReencStream}} {
+	}{{"bolt", runBolt}, {"boltlocal", runBoltLocal}, {"dubbo", runDubbo}, {"thrift", runThrift}, {"tars", runTars}, {"uri", runURI}, {"http1", runHTTP1}, {"http2", runHTTP2}, {"relay", runRelay}, {"reenc", runReenc}, {"http1m", runHTTP1Method}, {"http1f", runHTTP1Framing}, {"relayup", runRelayFirst}, {"reencs", runReencStream}, {"h2t", runH2T}, {"x12", runX12}, {"x21", runX21}} {
 		if only == "" || only == p.name {
 			p.run(c)
 		}
